@@ -11,6 +11,7 @@ package protocol
 
 //@ func protocol.parseDirective
 //@   params vars device
+//@   local dir = UnOp#1 | addr:Alloc#1
 //@   props C20 C10(sweep)
 //@   sweep bounds,panic,make,nilmem
 //@   invariant loop#1: forall k in 0..rangeindex+1: !otherrole(vars[k].Variable, device)
@@ -24,6 +25,7 @@ package protocol
 
 //@ func protocol.parseURLs
 //@   params vars device
+//@   local v = UnOp#1 | addr:Alloc#3
 //@   props C20 C10(sweep)
 //@   sweep bounds,panic,make,nilmem
 //@   callassert Itoa#1: @roleport (device && v.Variable == RVDevPort) || (!device && v.Variable == RVOwnerPort)
@@ -43,6 +45,7 @@ package protocol
 // PubOf(k) is DEFINED as the crypto.PublicKey that PublicKey.Public parses out of k.
 //@ func protocol.PublicKey.Public
 //@   params pub
+//@   local err = Phi#1 | call:protocol.PublicKey.parse#1
 //@   nopaths
 //@   pure
 //@   ensures! err == nil ==> u(result0) == PubOf(u(*pub))
@@ -69,6 +72,8 @@ package protocol
 // chain, whatever the number of certificates; the chain is kept in wire order (C09, C04)
 //@ func protocol.PublicKey.parseX5Chain
 //@   params pub
+//@   local certs = UnOp#11 | UnOp#2 | UnOp#3 | UnOp#4 | UnOp#8 | addr:Alloc#1
+//@   local err = call:cbor.Unmarshal#1
 //@   props C09 C04 C01 C06 C10(sweep)
 //@   sweep bounds,panic,make,nilmem
 //@   invariant loop#1: forall k in 0..rangeindex+1: certs[k] != nil
